@@ -90,7 +90,30 @@ impl<'a> LocalVariables<'a> {
     }
 
     pub(crate) fn load(&mut self, path: &str) -> Result<Arc<[InstructionWithStr]>, Error> {
+        use std::{cell::RefCell, io, path::PathBuf};
+        thread_local! {
+            /// the files whose import is under way on this thread, outermost first
+            static LOADING: RefCell<Vec<PathBuf>> = const { RefCell::new(Vec::new()) };
+        }
+        struct Loading;
+        impl Drop for Loading {
+            fn drop(&mut self) {
+                LOADING.with(|loading| loading.borrow_mut().pop());
+            }
+        }
         let contents = fs::read_to_string(path)?;
+        // a file that imports itself, directly or through the files it imports, would be loaded
+        // again and again until the stack overflows
+        let file = fs::canonicalize(path)?;
+        if LOADING.with(|loading| loading.borrow().contains(&file)) {
+            return Err(io::Error::new(
+                io::ErrorKind::InvalidInput,
+                format!("{path} imports itself"),
+            )
+            .into());
+        }
+        LOADING.with(|loading| loading.borrow_mut().push(file));
+        let _loading = Loading;
         self.parse_input(&contents)
     }
 
